@@ -13,7 +13,7 @@ from vt.mon import contracts, hooks
 PROP = 'C04'
 TITLE = 'DFA minimisation (table filling, quotient, Hopcroft)'
 SHARDS = {'quick': 8, 'thorough': 32}
-TIMEOUT = {'quick': 600, 'thorough': 3000}
+TIMEOUT = {'quick': 420, 'thorough': 3000}
 REQUIRED = ['dfa_minimize', 'dfa_quotient', 'dfa_hopfcroft']          # the loop-invariant probes are auxiliary: they depend on source lines a refactoring may move
 EXHAUSTIVE_NOTE = 'all total DFAs with <=3 states over <=2 symbols are enumerated completely for each of the three routines'
 RULE = ('cases are DFAs (complete enumeration <=3 states/<=2 symbols, seeded random <=8 states/<=3 symbols, hostile families: one state, '
